@@ -73,7 +73,7 @@ def run_case(ctx, rng, idx):
         cfg.labels = list(h.get_nodes())[:12] + [10**6, 10**6 + 1]
     else:
         try:
-            live, trace = history.run_history(NullCtx(), rng, cfg, battery_every=0, raw=raw)
+            live, trace = history.run_history(history.BuildCtx(ctx, "C05"), rng, cfg, battery_every=0, raw=raw)
         except Exception as e:
             ctx.note("source-build-failed:" + type(e).__name__)
             return
